@@ -495,7 +495,7 @@ def run_fuzz(pid, cfg, scratch, notes):
         cdir = os.path.join(pkgdir, "testdata", "fuzz", target)
         before = set(os.listdir(cdir)) if os.path.isdir(cdir) else set()
         cmd = ["go", "test", "-tags", "verif", "-vet=off", "-overlay", overlay_file(), "-run", "^$",
-               "-fuzz", "^%s$" % target, "-fuzztime", "%ds" % secs, "-test.fuzzcachedir", os.path.join(scratch, "fuzzcache")] + modfile_args() + [
+               "-fuzz", "^%s$" % target, "-fuzztime", "%ds" % secs] + modfile_args() + [
                "./" + cfg["cluster"] + "/"]
         env = go_env()
         env.update(VERIF_TIER="thorough", TMPDIR=scratch)
